@@ -13,7 +13,7 @@
    on the primitives at all; only [no_forgery] remains, for the integrity theorem. *)
 From Coq Require Import List NArith Arith Bool Lia.
 From GmsmVerif Require Import Lib.Outcome Rec.RecordSpec Rec.RecordModel Rec.RecordProofs Rec.RecordRoundtrip
-  Rec.RecordIntegrity Rec.RecordFragment Rec.RecordExtras Rec.RecordSM4.
+  Rec.RecordIntegrity Rec.RecordFragment Rec.RecordExtras Rec.RecordProgress Rec.RecordDuplex Rec.RecordHS Rec.RecordSM4.
 Import ListNotations.
 Local Open Scope nat_scope.
 
@@ -405,3 +405,152 @@ Theorem C07_prefix_integrity_sm4 :
               hc_seq (i_hc c') = be64 (s0 + N.of_nat k) /\ hc_err (i_hc c') = true.
 Proof. intros. eapply prefix_integrity_wire; eassumption. Qed.
 Print Assumptions C07_prefix_integrity_sm4.
+
+(* ======== 6. the sender makes progress; both directions stop after a failure ======================= *)
+
+(* With the SM4 suites, Conn.Write never fails for want of room: given one block of config.rand() per
+   byte written (a crude bound; one block per record is what is used), a sequence number that stays below
+   2^64 and fuel for the longest write, every Write returns (len, nil) - and the receiver delivers the
+   concatenation of the writes.  No premise on the primitives, no "Write accepted" premise. *)
+Theorem C07_writes_arrive_sm4 :
+  forall fuelW cw writes s0 hcR rounds fuel,
+    sender_ok cw -> protected (o_hc cw) -> hc_seq (o_hc cw) = be64 s0 ->
+    hc_err (o_hc cw) = false -> o_closeNotifySent cw = false ->
+    (s0 + N.of_nat (total_len writes) < 2 ^ 64)%N -> 16 * total_len writes <= length (o_rand cw) ->
+    max_len writes <= fuelW -> bytes_ok (concat writes) ->
+    same_keys (o_hc cw) hcR -> hc_version hcR = VersionGMSSL -> hc_err hcR = false ->
+    total_len writes < rounds ->
+    exists cw' recs c' frs,
+      write_calls sm4_prims fuelW cw writes = Ok (cw', recs, false) /\
+      recv_all sm4_prims rounds (S fuel) (receiver0 hcR VersionGMSSL (concat recs)) = Ok (concat writes, c') /\
+      hc_err (i_hc c') = true /\
+      concat frs = concat writes /\ Forall (fun f => length f <= maxPlaintext) frs /\ length frs = length recs.
+Proof. exact (fragmentation_total sm4_prims sm4_prims_ok sm4_expansion_ok sm4_maxPayload_pos). Qed.
+Print Assumptions C07_writes_arrive_sm4.
+
+(* the same for any primitives that satisfy the premises and leave room for payload *)
+Theorem C07_writes_arrive :
+  forall P, prims_ok P -> p_bs P + p_macSize P + p_bs P + p_overhead P + 8 <= 2048 ->
+    (forall c typ e, e <= 8 + p_bs P -> 1 <= fst (maxPayloadSizeForWrite P c typ e)) ->
+  forall fuelW cw writes s0 hcR rounds fuel,
+    sender_ok cw -> protected (o_hc cw) -> hc_seq (o_hc cw) = be64 s0 ->
+    hc_err (o_hc cw) = false -> o_closeNotifySent cw = false ->
+    (s0 + N.of_nat (total_len writes) < 2 ^ 64)%N -> p_bs P * total_len writes <= length (o_rand cw) ->
+    max_len writes <= fuelW -> bytes_ok (concat writes) ->
+    same_keys (o_hc cw) hcR -> hc_version hcR = VersionGMSSL -> hc_err hcR = false ->
+    total_len writes < rounds ->
+    exists cw' recs c' frs,
+      write_calls P fuelW cw writes = Ok (cw', recs, false) /\
+      recv_all P rounds (S fuel) (receiver0 hcR VersionGMSSL (concat recs)) = Ok (concat writes, c') /\
+      hc_err (i_hc c') = true /\
+      concat frs = concat writes /\ Forall (fun f => length f <= maxPlaintext) frs /\ length frs = length recs.
+Proof. intros P H1 H2 H3. exact (fragmentation_total P H1 H2 H3). Qed.
+Print Assumptions C07_writes_arrive.
+
+(* Full duplex.  (a) Whenever Conn.Read makes the connection send records (the alert readRecord hands to
+   sendAlert), the receiving side has failed for good. *)
+Theorem C07_alert_means_failed :
+  forall P fuel c L c' out err recs,
+    conn_Read_duplex P fuel c L = Ok (c', out, err, recs) -> recs <> [] -> hc_err (i_hc (c_in c')) = true.
+Proof. intros P. exact (duplex_alert_means_failed P). Qed.
+Print Assumptions C07_alert_means_failed.
+
+(* (b) The fatal alert is one protected record; afterwards every Write of the failed endpoint returns an
+   error without writing; the peer - whose receiving half connection matches - delivers exactly what was
+   written before the failure, reads the alert and ends in the permanent error state, whatever follows
+   on the wire.  (sendAlert uses warning level only for no_renegotiation and close_notify.) *)
+Theorem C07_both_directions_stop_sm4 :
+  forall fuelW cw writes cw1 recs s0 hcR a fuelA fuel rounds tail,
+    sender_ok cw -> protected (o_hc cw) -> hc_seq (o_hc cw) = be64 s0 ->
+    (s0 + N.of_nat (length recs) + 1 < 2 ^ 64)%N ->
+    write_calls sm4_prims fuelW cw writes = Ok (cw1, recs, false) -> bytes_ok (concat writes) ->
+    16 <= length (o_rand cw1) ->
+    (a < 256)%N -> (a =? alertNoRenegotiation)%N = false -> (a =? alertCloseNotify)%N = false ->
+    same_keys (o_hc cw) hcR -> hc_version hcR = VersionGMSSL -> hc_err hcR = false ->
+    length recs + 1 < rounds ->
+    exists cw2 r cR',
+      sendAlertLocked sm4_prims (S (S fuelA)) cw1 a = Ok (cw2, [r], true) /\
+      hc_err (o_hc cw2) = true /\
+      (forall f b, conn_Write sm4_prims f cw2 b = Ok (cw2, [], 0, true)) /\
+      recv_all sm4_prims rounds (S fuel) (receiver0 hcR VersionGMSSL (concat recs ++ r ++ tail))
+        = Ok (concat writes, cR') /\
+      hc_err (i_hc cR') = true.
+Proof. exact (duplex_fatal_alert sm4_prims sm4_prims_ok sm4_expansion_ok sm4_maxPayload_pos). Qed.
+Print Assumptions C07_both_directions_stop_sm4.
+
+(* non-vacuity of 6 with the toy primitives: a receiver fed a corrupted record sends bad_record_mac; the
+   alert record makes the peer fail; the failed endpoint cannot write any more *)
+Example C07_duplex_example :
+  let A := mkConn (receiver0 (ex_hc ex_gcm None) VersionGMSSL
+                     (apply_script (ex_records ex_gcm None) [] [] [Deliver 0; FlipBit 1 20 7]))
+                  (ex_out ex_cbc (Some [9; 9]%N)) in
+  match conn_Read_duplex toy_prims 10 A 100 with
+  | Ok (A1, out1, err1, _) =>
+    match conn_Read_duplex toy_prims 10 A1 100 with
+    | Ok (A2, out2, err2, recs) =>
+      out1 = [10; 20; 30]%N /\ err1 = false /\ out2 = [] /\ err2 = true /\ length recs = 1 /\
+      i_alerts (c_in A2) = [alertBadRecordMAC] /\ hc_err (o_hc (c_out A2)) = true /\
+      conn_Write toy_prims 10 (c_out A2) [1; 2; 3]%N = Ok (c_out A2, [], 0, true) /\
+      (* the peer of A's sending direction *)
+      match recv_all toy_prims 10 10 (receiver0 (ex_hc ex_cbc (Some [9; 9]%N)) VersionGMSSL (concat recs ++ [23; 1; 1]%N)) with
+      | Ok (outB, cB) => outB = [] /\ hc_err (i_hc cB) = true /\ i_alerts cB = []
+      | _ => False
+      end
+    | _ => False
+    end
+  | _ => False
+  end.
+Proof. vm_compute. repeat split; reflexivity. Qed.
+
+(* ======== 7. the sequence number reset on ChangeCipherSpec ========================================== *)
+
+(* readRecord during the handshake (want = handshake or ChangeCipherSpec): a call that returns without error
+   either leaves the pending cipher spec untouched, or it was asked for a ChangeCipherSpec, NO handshake
+   bytes were waiting in c.hand (none before, none after), and it installed exactly the pending cipher and
+   MAC with the sequence number reset to zero. *)
+Theorem C07_ccs_activation :
+  forall P fuel want s s',
+    readRecord_hs P fuel want s = Ok s' -> hc_err (i_hc (s_in s')) = false ->
+    s_next s' = s_next s \/
+    (want = recordTypeChangeCipherSpec /\ s_hand s = [] /\ s_hand s' = [] /\ s_next s' = None /\
+     exists cs mac, s_next s = Some (cs, mac) /\
+       hc_cipher (i_hc (s_in s')) = cs /\ hc_mac (i_hc (s_in s')) = mac /\ hc_seq (i_hc (s_in s')) = repeat 0%N 8).
+Proof. intros P. exact (ccs_activation P). Qed.
+Print Assumptions C07_ccs_activation.
+
+Example C07_ccs_examples :
+  let hc := mkHC false VersionGMSSL CipherNone None (be64 5) in
+  let next := Some (ex_gcm, None) in
+  let s hand wire := mkHS (mkIn hc VersionGMSSL wire None 0 [] []) true hand next in
+  let show r := match r with
+                | Ok (failed, s') => Some (failed, hc_seq (i_hc (s_in s')), kind (hc_cipher (i_hc (s_in s'))), i_alerts (s_in s'))
+                | _ => None end in
+  (* accepted: sequence number reset, cipher switched *)
+  show (readRecords_hs toy_prims 8 [20%N] 0 (s [] [20; 1; 1; 0; 1; 1]%N)) = Some (None, repeat 0%N 8, 1, []) /\
+  (* a whole handshake message is still waiting in c.hand: unexpected_message, nothing switched *)
+  show (readRecords_hs toy_prims 8 [20%N] 0 (s [20; 0; 0; 0]%N [20; 1; 1; 0; 1; 1]%N))
+    = Some (Some 0, be64 6, 0, [alertUnexpectedMessage]) /\
+  (* a ChangeCipherSpec nobody asked for *)
+  show (readRecords_hs toy_prims 8 [22%N] 0 (s [] [20; 1; 1; 0; 1; 1]%N)) = Some (Some 0, be64 6, 0, [alertUnexpectedMessage]).
+Proof. vm_compute. repeat split; reflexivity. Qed.
+
+(* ======== 8. Read never drops the unread part of a record ========================================= *)
+
+(* With a buffer smaller than what is left of the current record, Read hands out exactly the first L bytes
+   and keeps the rest; the look-ahead for a waiting alert (close_notify) cannot run while unread data is
+   pending.  With a buffer that holds the rest, all of it is handed out before the look-ahead may consume an
+   alert record. *)
+Theorem C07_read_keeps_unread_tail :
+  forall P fuel c d L,
+    i_input c = Some d -> hc_err (i_hc c) = false -> 1 <= L -> L < length d ->
+    conn_Read P fuel c L = Ok (with_input c (Some (skipn L d)), firstn L d, false).
+Proof. intros P. exact (read_keeps_unread_tail P). Qed.
+Print Assumptions C07_read_keeps_unread_tail.
+
+Theorem C07_read_hands_out_rest :
+  forall P fuel c d L c' out err,
+    i_input c = Some d -> hc_err (i_hc c) = false -> d <> [] -> length d <= L ->
+    conn_Read P fuel c L = Ok (c', out, err) ->
+    out = d /\ (c' = with_input c None \/ readRecord P fuel (with_input c None) = Ok c').
+Proof. intros P. exact (read_hands_out_rest P). Qed.
+Print Assumptions C07_read_hands_out_rest.
